@@ -1638,6 +1638,7 @@ class sptensor:
             old_modes = np.arange(0, self.ndims, dtype=int)
             keep_modes = np.array([], dtype=int)
         else:
+            old_modes = np.atleast_1d(old_modes)
             keep_modes = np.setdiff1d(np.arange(0, self.ndims, dtype=int), old_modes)
 
         shapeArray = np.array(self.shape)
